@@ -1,6 +1,7 @@
 package main
 
 import (
+	"bytes"
 	"crypto/tls"
 	"crypto/x509"
 	"crypto/x509/pkix"
@@ -10,6 +11,7 @@ import (
 	"os"
 	"runtime"
 	"runtime/debug"
+	"runtime/pprof"
 	"strings"
 	"sync"
 	"time"
@@ -451,7 +453,7 @@ func init() {
 	run.Register(&run.Prop{
 		ID: "C19", Level: "fault_enumeration",
 		Rule: func(tier string) string {
-			return "two parts. (per ending, hook H1, deterministic) endings {EOF at a request boundary, EOF mid-request, reset at a boundary, reset mid-request, QUIT with a request behind it, malformed frame (peer keeps the connection open), write failure on the 1st/2nd/3rd write, write accepting n bytes then failing, rejected certificate (fabricated TLS state under a common-name rule, peer keeps the connection open), server Stop while idle, server Stop while parked in the middle of a request} (plus, on real plain and TLS sockets, QUIT and a malformed frame from a client that then keeps its socket open and silent: the client must see the end of stream and no connection goroutine may stay parked on it; and Stop in the middle of a 16-goroutine connect storm: a connection that still answers after Stop returned or stays registered at a fixed point is a violation) x 0..4 preceding requests x whole/per-request delivery: the connection loop must return, the scripted socket must have been closed and Server.Conns() must not contain the connection. (churn) a child runs the bundled example server on real plain and TLS listeners; after a warm-up with one connection per ending the idle baseline {goroutines with a frame in redis.(*Server).serve/tlsServe/receive, len(Conns()), len(/proc/self/fd)} is sampled at a fixed point; then N cycles (1000 quick / 10000 thorough per case) with up to 1..32 connections in flight mix FIN, RST, half-close, mid-request, QUIT, malformed, TLS ok+FIN/RST/mid-request, TLS without certificate, TLS garbage, TLS abort after ClientHello, and a client that stops reading a large reply and resets. Verdict on the fixed point after everything is closed: a counter that stays above baseline and unchanged over the whole grace window is a leak; still moving = inconclusive"
+			return "two parts. (per ending, hook H1, deterministic) endings {EOF at a request boundary, EOF mid-request, reset at a boundary, reset mid-request, QUIT with a request behind it, malformed frame (peer keeps the connection open), write failure on the 1st/2nd/3rd write, write accepting n bytes then failing, rejected certificate (fabricated TLS state under a common-name rule, peer keeps the connection open), server Stop while idle, server Stop while parked in the middle of a request} (plus, on real plain and TLS sockets, QUIT and a malformed frame from a client that then keeps its socket open and silent: the client must see the end of stream and no connection goroutine may stay parked on it; Stop while a client that asked for 64 MiB of replies reads none of them (connection goroutine parked in a network write): Stop must return and the socket be closed - if Stop is found parked on a lock while that write is pending, that is the violation; and Stop in the middle of a 16-goroutine connect storm: a connection that still answers after Stop returned or stays registered at a fixed point is a violation) x 0..4 preceding requests x whole/per-request delivery: the connection loop must return, the scripted socket must have been closed and Server.Conns() must not contain the connection. (churn) a child runs the bundled example server on real plain and TLS listeners; after a warm-up with one connection per ending the idle baseline {goroutines with a frame in redis.(*Server).serve/tlsServe/receive, len(Conns()), len(/proc/self/fd)} is sampled at a fixed point; then N cycles (1000 quick / 10000 thorough per case) with up to 1..32 connections in flight mix FIN, RST, half-close, mid-request, QUIT, malformed, TLS ok+FIN/RST/mid-request, TLS without certificate, TLS garbage, TLS abort after ClientHello, and a client that stops reading a large reply and resets. Verdict on the fixed point after everything is closed: a counter that stays above baseline and unchanged over the whole grace window is a leak; still moving = inconclusive"
 		},
 		Exhaustive:  func(string) bool { return false },
 		Assumptions: []string{"stalled TLS handshakes are not part of the churn (they end only with the server's handshake deadline)"},
@@ -473,6 +475,9 @@ func init() {
 			}
 			if m := idx % stride; m > 0 && m%(stride/8) == 1 {
 				return c19endsButPeerStays(idx)
+			}
+			if m := idx % stride; m > 0 && m%(stride/8) == 2 {
+				return c19stopWhileNotReading(idx)
 			}
 			return c19ending(idx)
 		},
@@ -512,8 +517,9 @@ func busyServerGoroutines() int {
 func c19endsButPeerStays(idx int) run.Result {
 	var res run.Result
 	res.Idx = idx
-	how := []string{"quit", "malformed"}[(idx/2)%2]
-	overTLS := idx%2 == 1
+	h := gen.Hash64([]byte(fmt.Sprint("peer-stays", idx)))
+	how := []string{"quit", "malformed"}[h%2]
+	overTLS := (h/2)%2 == 1
 	res.Classes = []string{fmt.Sprintf("ending:%s-peer-keeps-socket-open:tls=%v", how, overTLS)}
 	res.Key = uint64(idx) ^ 0x9017
 	res.NonTrivial = true
@@ -595,6 +601,103 @@ func c19endsButPeerStays(idx int) run.Result {
 	if n := len(s.srv.Conns()); n != 0 {
 		res.Violate("C19:still-registered:"+how+"-peer-keeps-socket-open", "the connection disappears from the connection registry", fmt.Sprintf("registry has %d entries", n), desc)
 	}
+	return res
+}
+
+// c19stopWhileNotReading: the endings "a client that stops reading" and "server Stop" together. A client asks for
+// far more reply bytes than the socket buffers hold and reads none of them, so its connection goroutine is parked
+// in a network write; then Stop is called. Stop has to come back, the client's socket has to be closed, the
+// goroutine has to end. Structural verdict if Stop does not come back: the goroutine profile shows Stop itself
+// parked on a lock (not in I/O) while the connection goroutine is parked in the write - a wait that only the
+// silent client could end.
+func c19stopWhileNotReading(idx int) run.Result {
+	var res run.Result
+	res.Idx = idx
+	overTLS := gen.Hash64([]byte(fmt.Sprint("not-reading", idx)))%2 == 1
+	res.Classes = []string{fmt.Sprintf("ending:stop-while-client-not-reading:tls=%v", overTLS)}
+	res.Key = uint64(idx) ^ 0x7a11
+	res.NonTrivial = true
+	desc := map[string]any{"ending": "stop while a client is not reading", "tls": overTLS}
+	s := newLcServer(map[bool]string{false: "plain", true: "tls"}[overTLS])
+	if s == nil {
+		res.Inconclusive = "pki unavailable"
+		return res
+	}
+	base, _ := serverGoroutines()
+	if err := s.srv.Start(); err != nil {
+		res.Inconclusive = "Start failed"
+		return res
+	}
+	c, err := s.dial(overTLS)
+	if err != nil {
+		s.srv.Stop()
+		res.Inconclusive = "client could not connect"
+		return res
+	}
+	defer c.c.Close()
+	big := strings.Repeat("x", 1<<20)
+	reqs := []resp.Value{resp.Cmd("ECHO", big)}
+	for k := 0; k < 63; k++ {
+		reqs = append(reqs, resp.Cmd("ECHO", big))
+	}
+	c.c.SetWriteDeadline(time.Now().Add(5 * time.Second))
+	go c.c.Write(resp.EncodeAll(reqs...)) // the client's own send may block too once the server stops reading; it never reads
+	// wait until the connection goroutine is parked in a network write
+	inWrite := func() bool {
+		_, dump := serverGoroutines()
+		for _, g := range strings.Split(dump, "\n\n") {
+			if strings.Contains(g, ".receive(") && strings.Contains(g, "[IO wait") && strings.Contains(g, ".Write(") {
+				return true
+			}
+		}
+		return false
+	}
+	for dl := time.Now().Add(watchdog); !inWrite() && time.Now().Before(dl); {
+		time.Sleep(5 * time.Millisecond)
+	}
+	if !inWrite() {
+		s.srv.Stop()
+		res.Inconclusive = "the connection goroutine did not block in a write"
+		return res
+	}
+	done := make(chan error, 1)
+	go func() { done <- s.srv.Stop() }()
+	deadline := time.Now().Add(watchdog)
+	for {
+		select {
+		case <-done:
+			if !clientClosed(c) {
+				res.Violate("C19:socket-not-closed:stop-while-client-not-reading", "the server closes the socket", "the non-reading client saw neither EOF nor reset within 3 s after Stop returned", desc)
+				return res
+			}
+			if excess, dump := waitGoroutines(base); excess > 0 && busyServerGoroutines() == 0 {
+				res.Violate("C19:goroutine-not-terminated:stop-while-client-not-reading", "the connection's goroutine terminates", fmt.Sprintf("%d server goroutine(s) left:\n%s", excess, clipS(dump, 1200)), desc)
+			}
+			return res
+		default:
+		}
+		if time.Now().After(deadline) {
+			break
+		}
+		time.Sleep(50 * time.Millisecond)
+		if time.Since(deadline.Add(-watchdog)) > 3*time.Second {
+			var buf bytes.Buffer
+			pprof.Lookup("goroutine").WriteTo(&buf, 2)
+			for _, g := range strings.Split(buf.String(), "\n\n") {
+				if strings.Contains(g, "redis.(*Server).Stop(") && (strings.Contains(g, "[sync.Mutex.Lock") || strings.Contains(g, "[semacquire") || strings.Contains(g, "[sync.RWMutex")) && inWrite() {
+					res.Violate("C19:stop-blocked-by-non-reading-client", "however a connection ends - a client that stops reading, or server Stop - the server closes the socket and the connection's goroutine terminates", "Stop is parked on a lock while the connection goroutine is parked in a network write to a client that does not read: only that client could end the wait\n"+clipS(g, 1200), desc)
+					c.c.Close() // let the server go
+					select {
+					case <-done:
+					case <-time.After(watchdog):
+					}
+					return res
+				}
+			}
+		}
+	}
+	res.Inconclusive = "Stop did not return within the watchdog and no structural witness was found"
+	c.c.Close()
 	return res
 }
 
